@@ -461,6 +461,67 @@ def gen_big_case(rng, i, backend='numpy'):
     return case
 
 
+def all_compositions(n):
+    if n == 0:
+        return [[]]
+    return [[k] + rest for k in range(1, n + 1) for rest in all_compositions(n - k)]
+
+
+CHUNK_MODES = ['same-max-different-split', 'same-count-different-boundaries', 'one-side-single-chunk', 'independent']
+
+
+def chunk_pair(rng, n, mode, max_parts=3):
+    """(zones chunks, values chunks) of one axis of length n: IRREGULAR chunk tuples that differ but share the per-axis
+    maximum (e.g. (4,2,2) vs (4,4)), that have the same number of blocks but other boundaries, one side unchunked, or
+    two independent compositions"""
+    comps = all_compositions(n)
+    if mode == 'same-max-different-split':
+        pairs = [(a, b) for a in comps for b in comps if a != b and max(a) == max(b)]
+    elif mode == 'same-count-different-boundaries':
+        pairs = [(a, b) for a in comps for b in comps if a != b and len(a) == len(b)]
+    elif mode == 'one-side-single-chunk':
+        pairs = [(a, [n]) for a in comps if len(a) > 1] + [([n], a) for a in comps if len(a) > 1]
+    else:
+        pairs = [(a, b) for a in comps for b in comps]
+    pairs = [(a, b) for a, b in pairs if len(a) <= max_parts and len(b) <= max_parts]
+    if not pairs:
+        c = rng.choice([c for c in comps if len(c) <= max_parts])
+        return list(c), list(c)
+    a, b = rng.choice(pairs)
+    return list(a), list(b)
+
+
+def chunk_pairs_2d(rng, rows, cols):
+    """irregular, mutually different chunkings of zones and values (at most 3 parts on the interesting axis, at most 2 on
+    the other: <= 6 blocks); returns (zchunks, vchunks, label)"""
+    mode = rng.choice(CHUNK_MODES[:3] * 2 + CHUNK_MODES[3:])
+    other = rng.choice(['equal', 'equal', 'independent', 'one-side-single-chunk'])
+    first_rows = rng.random() < 0.6
+    n1, n2 = (rows, cols) if first_rows else (cols, rows)
+    z1, v1 = chunk_pair(rng, n1, mode, 3)
+    if other == 'equal':
+        z2 = v2 = composition(rng, n2, 2)
+    else:
+        z2, v2 = chunk_pair(rng, n2, other, 2)
+    if first_rows:
+        return [z1, z2], [v1, v2], '%s|%s' % (mode, other)
+    return [z2, z1], [v2, v1], '%s|%s' % (other, mode)
+
+
+def gen_chunk_case(rng, i):
+    """Dask stats on rasters large enough (rows, cols in 3..8) for irregular chunk tuples"""
+    case = gen_dask_case(rng, i)
+    rows, cols = rng.randint(3, 8), rng.randint(2, 6)
+    zones, _ = gen_zones(rng, rows, cols, case['zdtype'], p_nan=0.04, p_pinf=0.02, p_ninf=0.02)
+    if not finite_zone_ids(zones):
+        zones[0][0] = 1.0
+    values = gen_values(rng, rows, cols, case['vdtype'])
+    zch, vch, label = chunk_pairs_2d(rng, rows, cols)
+    case.update(zones=zones, values=values, zone_ids=None, nodata=None if rng.random() < 0.6 else 0, zchunks=zch, vchunks=vch,
+                chunkmode=label)
+    return case
+
+
 def composition(rng, n, max_parts):
     k = rng.randint(1, min(n, max_parts))
     cuts = sorted(rng.sample(range(1, n), k - 1)) if k > 1 else []
@@ -747,6 +808,7 @@ def run(ctx, n=None, n_dask=None):
     # ---- Dask-backed stream: same oracle, same model (evaluated in a small worker pool) ----
     nd = n_dask if n_dask is not None else (96 if ctx.quick() else 900)
     dcases = [gen_dask_case(rng, i) for i in range(nd)] + [gen_big_case(rng, i, 'dask') for i in range(max(8, nd // 8))]
+    dcases += [gen_chunk_case(rng, i) for i in range(max(16, nd // 5))]       # appended: irregular zones/values chunk pairs
     if dcases:
         with mp.get_context('fork').Pool(min(6, int(os.environ.get('VERIF_POOL', '6')))) as pool:
             douts = pool.map(_eval_dask, dcases, chunksize=2)
@@ -755,6 +817,8 @@ def run(ctx, n=None, n_dask=None):
             nd_ = None if case['nodata'] is None else float(case['nodata'])
             empty = any(not zone_valid_values(case['zones'], case['values'], z, nd_)
                         for z in requested_rows(case['zones'], case['zone_ids']))
+            if case.get('chunkmode'):
+                ctx.count('dask/irregular-chunk-pairs/%s' % case['chunkmode'])
             ctx.count('dask/blocks=%d/%s%s' % (len(case['zchunks'][0]) * len(case['zchunks'][1]),
                                                'same-chunks' if case['zchunks'] == case['vchunks'] else 'values-chunked-differently',
                                                '/selected-zone-without-valid-cell' if empty else ''))
